@@ -395,6 +395,30 @@ impl Builtins {
         panic!("BUG: all branches should return in convert - translator emitted wrong opcode sequence");
     }
 
+    /// The functional operators call their function with a fixed number of
+    /// arguments. A function of any other arity would pop or leave values on
+    /// the callers stack.
+    fn check_arity(
+        f: &super::Func,
+        expected: usize,
+        what: &str,
+        pos: &Position,
+    ) -> Result<(), Error> {
+        if f.bindings.len() != expected {
+            return Err(Error::new(
+                format!(
+                    "{} calls its function with {} arguments but it takes {}",
+                    what,
+                    expected,
+                    f.bindings.len()
+                )
+                .into(),
+                pos.clone(),
+            ));
+        }
+        Ok(())
+    }
+
     fn map<O, E>(
         &self,
         stack: &mut Vec<(Rc<Value>, Position)>,
@@ -427,6 +451,7 @@ impl Builtins {
 
         match *list.as_ref() {
             C(List(ref elems, ref elems_pos_list)) => {
+                Self::check_arity(f, 1, "map over a list", &fptr_pos)?;
                 let mut result_elems = Vec::new();
                 let mut pos_elems = Vec::new();
                 for (counter, e) in elems.iter().enumerate() {
@@ -442,6 +467,7 @@ impl Builtins {
                 stack.push((Rc::new(C(List(result_elems, pos_elems))), list_pos));
             }
             C(Tuple(ref flds, ref flds_pos_list)) => {
+                Self::check_arity(f, 2, "map over a tuple", &fptr_pos)?;
                 let mut new_fields = Vec::new();
                 let mut new_flds_pos_list = Vec::new();
                 for (counter, (name, val)) in flds.iter().enumerate() {
@@ -474,6 +500,7 @@ impl Builtins {
                 stack.push((Rc::new(C(Tuple(new_fields, new_flds_pos_list))), pos));
             }
             P(Str(ref s)) => {
+                Self::check_arity(f, 1, "map over a string", &fptr_pos)?;
                 let mut buf = String::new();
                 for c in s.chars() {
                     stack.push((Rc::new(P(Str(c.to_string().into()))), list_pos.clone()));
@@ -533,6 +560,7 @@ impl Builtins {
 
         match *list.as_ref() {
             C(List(ref elems, ref elems_pos_list)) => {
+                Self::check_arity(f, 1, "filter over a list", &fptr_pos)?;
                 let mut result_elems = Vec::new();
                 let mut pos_elems = Vec::new();
                 for (counter, e) in elems.iter().enumerate() {
@@ -557,6 +585,7 @@ impl Builtins {
                 stack.push((Rc::new(C(List(result_elems, pos_elems))), pos));
             }
             C(Tuple(ref flds, ref pos_list)) => {
+                Self::check_arity(f, 2, "filter over a tuple", &fptr_pos)?;
                 let mut new_fields = Vec::new();
                 let mut new_flds_pos_list = Vec::new();
                 for (counter, (name, val)) in flds.iter().enumerate() {
@@ -581,6 +610,7 @@ impl Builtins {
                 stack.push((Rc::new(C(Tuple(new_fields, new_flds_pos_list))), pos));
             }
             P(Str(ref s)) => {
+                Self::check_arity(f, 1, "filter over a string", &fptr_pos)?;
                 let mut buf = String::new();
                 for c in s.chars() {
                     stack.push((Rc::new(P(Str(c.to_string().into()))), list_pos.clone()));
@@ -681,6 +711,7 @@ impl Builtins {
 
         match *list.as_ref() {
             C(List(ref elems, ref elems_pos_list)) => {
+                Self::check_arity(f, 2, "reduce over a list", &fptr_pos)?;
                 for (counter, e) in elems.iter().enumerate() {
                     let e_pos = elems_pos_list[counter].clone();
                     // push function arguments on the stack.
@@ -694,6 +725,7 @@ impl Builtins {
                 }
             }
             C(Tuple(ref _flds, ref flds_pos_list)) => {
+                Self::check_arity(f, 3, "reduce over a tuple", &fptr_pos)?;
                 for (counter, (name, val)) in _flds.iter().enumerate() {
                     let name_pos = flds_pos_list[counter].0.clone();
                     let val_pos = flds_pos_list[counter].1.clone();
@@ -709,6 +741,7 @@ impl Builtins {
                 }
             }
             P(Str(ref s)) => {
+                Self::check_arity(f, 2, "reduce over a string", &fptr_pos)?;
                 for c in s.chars() {
                     // push function arguments on the stack.
                     stack.push((acc.clone(), acc_pos.clone()));
